@@ -411,13 +411,15 @@ def stable_solve_bounded_instance():
                     bounded_n=150, frame=False)
 
 
-def singular_bounded_instance(modes, tag):
+def singular_bounded_instance(modes, tag, pinned=False):
     from pb_bss.extraction import beamformer as bf, beamformer_wrapper as bw
 
     def make(B):
+        if pinned:           # the input of a known finding, evaluated on every run
+            return {'D': 2, 'F': 2, 'mode': 'zero', 'fn': 'wmwf', 'seed': 0, 'mu': 0.0, 'd': B.given('d', np.zeros(1))}
         return {'D': B.choose('D', [2, 3, 5, 8]), 'F': B.choose('F', [1, 2, 5, 32]), 'mode': B.choose('mode', modes),
                 'fn': B.choose('fn', ['mvdr_souden', 'wmwf', 'mvdr_souden+ban', 'wmwf+ban']), 'seed': B.choose('seed', list(range(1000))),
-                'd': B.given('d', np.zeros(1))}
+                'mu': B.choose('mu', [None, None, 0.0, 0.25, 4.0, 'frequency_dependent']), 'd': B.given('d', np.zeros(1))}
 
     def call(inp):
         rng = np.random.RandomState(inp['seed'])
@@ -442,20 +444,28 @@ def singular_bounded_instance(modes, tag):
             else:                                                # numerically rank deficient (v v^H in floating point)
                 v = cn(D, 1)
                 noi[f] = v @ np.conj(v.T)
-        w = bw.get_bf_vector(inp['fn'], tgt, noi, **({'ref_channel': 0} if 'souden' in inp['fn'] else {'reference_channel': 0}))
+        kw = {'ref_channel': 0} if 'souden' in inp['fn'] else {'reference_channel': 0}
+        if 'wmwf' in inp['fn'] and inp['mu'] is not None:
+            kw['distortion_weight'] = inp['mu']          # the speech-distortion trade-off, forwarded by the wrapper (0: Souden MVDR)
+        w = bw.get_bf_vector(inp['fn'], tgt, noi, **kw)
         clean = ~sing
         ref = None
         if clean.any():
-            ref = bw.get_bf_vector(inp['fn'], tgt[clean], noi[clean], **({'ref_channel': 0} if 'souden' in inp['fn'] else {'reference_channel': 0}))
+            ref = bw.get_bf_vector(inp['fn'], tgt[clean], noi[clean], **kw)
         return {'w': w, 'clean': clean, 'ref': ref}
 
     def ensures(sp, inp, out):
-        yield 'finite-on-singular-and-zero-psds', bool(np.all(np.isfinite(out['w'])))
+        tag_ = ''
+        if 'wmwf' in inp['fn'] and inp['mu'] is not None:
+            tag_ = '[%s,mu=%s,%s]' % (inp['fn'], inp['mu'], inp['mode'])
+        yield 'finite-on-singular-and-zero-psds' + tag_, bool(np.all(np.isfinite(out['w'])))
+        yield 'finite-on-regular-bins', bool(np.all(np.isfinite(np.asarray(out['w'])[out['clean']])))
         if out['ref'] is not None:
             yield 'regular-bins-unaffected-by-singular-neighbours', bool(np.allclose(out['w'][out['clean']], out['ref'], rtol=1e-9, atol=1e-12))
 
-    return Instance('C13', BW + 'get_bf_vector', 'bounded-%s-psds' % tag, make, call, ensures, mode='bounded', bounded_n=150, frame=False,
-                    fixed_seed=(tag == 'numerically-rank-deficient'))
+    return Instance('C13', BW + 'get_bf_vector', 'bounded-%s-psds' % tag + ('-pinned-known-finding-wmwf-zero-distortion-weight' if pinned else ''),
+                    make, call, ensures, mode='bounded', bounded_n=1 if pinned else 150, frame=False,
+                    fixed_seed=(tag == 'numerically-rank-deficient') or bool(pinned))
 
 
 NAMES = ['pca', 'pca+mvdr', 'scaled_gev_atf+mvdr', 'mvdr_souden', 'rank1_pca+mvdr_souden', 'rank1_gev+mvdr_souden', 'gev', 'rank1_pca+gev',
@@ -506,4 +516,5 @@ def instances(tier):
     out.append(stable_solve_bounded_instance())
     out.append(singular_bounded_instance(['zero', 'zero-noise', 'zero-row-and-column'], 'zero-or-exactly-singular'))
     out.append(singular_bounded_instance(['rank-deficient'], 'numerically-rank-deficient'))
+    out.append(singular_bounded_instance(['zero'], 'zero-or-exactly-singular', pinned=True))
     return out
